@@ -3,9 +3,11 @@
 inner solvers use their `stop_signal` member — re-extracted from /repo on every run and emitted as
 Lean tables (lean/Alpaqa/Gen/C19.lean).  `Props/C19_Panoc.lean` decides over these tables that the
 flag is a `std::atomic<bool>`, initialised `false`, accessed only through `store(true)` / `load`
-(never stored `false`), and that PANOC polls it at the loop head (through
+(never stored `false`), and that PANOC polls it in the condition of the initial step-size loop
+(`while (!stop_requested() && L < L_max && qub_violated(…))`), at the loop head (through
 `check_all_stop_conditions`), in the condition of the line-search loop and right after that loop
-(`if (stop_requested()) continue;`)."""
+(`if (stop_requested()) continue;`); and, for every solver scanned, that each `while` loop whose
+condition calls `qub_violated` (the step-size backtracking loops) polls the flag first."""
 import json
 import os
 import re
@@ -72,6 +74,39 @@ def flag_accesses(src):
     return out
 
 
+# what follows `while (!stop_signal.stop_requested()` in a step-size backtracking loop
+QUB_REST = (r'&&\s*\w+\s*(?:->|\.)\s*L\s*<\s*params\s*\.\s*L_max\s*&&\s*'
+            r'qub_violated\s*\(\s*\*?\s*\w+\s*\)\s*\)\s*\{')
+
+
+def stepsize_loops(rel, src):
+    """Every `while (…)` whose condition calls `qub_violated`: (file, does the condition start with
+    `!stop_signal.stop_requested() &&`, is the rest `L < params.L_max && qub_violated(…)`)."""
+    out = []
+    name = os.path.basename(rel)
+    for mm in re.finditer(r'(?<![\w])while\s*\(', src):
+        op = mm.end() - 1
+        depth, i = 0, op
+        while i < len(src):
+            if src[i] == '(':
+                depth += 1
+            elif src[i] == ')':
+                depth -= 1
+                if depth == 0:
+                    break
+            i += 1
+        cond = src[op + 1:i]
+        if not re.search(r'(?<![\w])qub_violated\s*\(', cond):
+            continue
+        m = re.match(r'\s*!\s*stop_signal\s*\.\s*stop_requested\s*\(\s*\)\s*', cond)
+        polls = bool(m)
+        rest = cond[m.end():] if m else '&& ' + cond.lstrip()
+        shape = bool(re.fullmatch(r'&&\s*\w+\s*(?:->|\.)\s*L\s*<\s*params\s*\.\s*L_max\s*&&\s*'
+                                  r'qub_violated\s*\(\s*\*?\s*\w+\s*\)\s*', rest))
+        out.append((name, polls, shape))
+    return out
+
+
 def signal_uses(rel, src):
     out = []
     name = os.path.basename(rel)
@@ -88,6 +123,8 @@ def signal_uses(rel, src):
             rest = after[re.match(r'\.\s*stop_requested\s*\(\s*\)', after).end():].lstrip()
             if re.search(r'while\s*\(\s*!$', before) and rest.startswith(')'):
                 kind = '.whileNotPoll'
+            elif re.search(r'while\s*\(\s*!$', before) and re.match(QUB_REST, rest):
+                kind = '.whileNotPollQub'
             elif re.search(r'if\s*\($', before) and re.match(r'\)\s*continue\s*;', rest):
                 kind = '.ifPollContinue'
             else:
@@ -120,10 +157,13 @@ def main(out_path):
     if not acc:
         raise cp.TranslationError('no occurrence of stop_flag in AtomicStopSignal')
     regions['stopFlagAccesses'] = acc
-    uses = []
+    uses, loops = [], []
     for rel in SOLVER_FILES:
         uses += signal_uses(rel, read(rel))
+        loops += stepsize_loops(rel, read(rel))
     regions['signalUses'] = uses
+    regions['stepsizeLoops'] = loops
+    b = lambda v: 'true' if v else 'false'
     q = lambda s: '"' + s.replace('"', '\\"') + '"'
     text = ('/- GENERATED by /verif/gen — do not edit. C19: declaration and accesses of the stop flag, uses of\n'
             '   the solvers\' `stop_signal` member. -/\n\n'
@@ -146,6 +186,7 @@ def main(out_path):
             '  | callStop        -- `stop_signal.stop()`\n'
             '  | poll            -- `stop_signal.stop_requested()` in another context\n'
             '  | whileNotPoll    -- `while (!stop_signal.stop_requested())`\n'
+            '  | whileNotPollQub -- `while (!stop_signal.stop_requested() && i.L < params.L_max && qub_violated(i))`\n'
             '  | ifPollContinue  -- `if (stop_signal.stop_requested()) continue;`\n'
             '  | passToChain     -- argument of `check_all_stop_conditions(…)`\n'
             '  | other\n'
@@ -156,6 +197,11 @@ def main(out_path):
             '/-- (file, use) for every occurrence of `stop_signal` in the inner solvers, in source order. -/\n'
             'def signalUses : List (String × SignalUse) :=\n  [' +
             ',\n   '.join(f'({q(f)}, {a})' for f, a in uses) + ']\n\n'
+            '/-- (file, condition starts with `!stop_signal.stop_requested() &&`, rest of the condition is\n'
+            '    `L < params.L_max && qub_violated(…)`) for every `while` loop of the inner solvers whose\n'
+            '    condition calls `qub_violated` (the step-size backtracking loops), in source order. -/\n'
+            'def stepsizeLoops : List (String × Bool × Bool) :=\n  [' +
+            ',\n   '.join(f'({q(f)}, {b(p)}, {b(sh)})' for f, p, sh in loops) + ']\n\n'
             'end Alpaqa.Gen.C19\n')
     old = open(out_path).read() if os.path.exists(out_path) else None
     if old != text:
